@@ -1127,7 +1127,7 @@ def best_path2(paths):
         path.append((r - 1, c - 1))
     while r > 0 and c > 0:
         if v == -1:
-            v = np.Inf
+            v = np.inf
         r_c, c_c = r, c
         if r >= 1 and c >= 1 and m[r - 1, c - 1] <= v:
             r_c, c_c, v = r - 1, c - 1, m[r - 1, c - 1]
